@@ -61,12 +61,13 @@ CLAIMED["C09"] = dict(
          "with info(T' at p) = combine mode (info(F at p)) (info(R at p)) at every path (C09_existing_kept/_new_added/_replaced/"
          "_nothing_else); C09_root_md(+_fresh) — root metadata per entry name; C09_other_roots — other trees and header untouched. "
          "Targeted appends through the real dispatch and path matching, by a zipper lemma (updateAt_encode): C09_target_new_branch, "
-         "C09_target_new_single, C09_target_below, C09_target_yes_append, C09_target_no_append, C09_target_over_branch (append-over "
-         "of an inner node = appendOne at its parent), C09_foreign_branch, C09_foreign_single — exactly the selection is added exactly "
+         "C09_target_new_single, C09_target_below, C09_target_yes_append, C09_target_no_append, C09_target_over_branch / C09_target_over_single "
+         "(append-over of an inner node = appendOne at its parent), C09_target_new_below, C09_emdpath_root_new_single, C09_foreign_branch, C09_foreign_single — exactly the selection is added exactly "
          "there — with C09_target_frame (every path not through the target keeps its content). Sequences: C09_closed (every "
          "theorem applies again after any append) and C09_twice.",
-    note="Not proved, modelled branch for branch and compared only: the remaining leaves of the 30-way dispatch (append-over on an "
-         "inner target with tree=False, emdpath combined with a root already in the file, a foreign Root's children). "
+    note="Every leaf of the dispatch for a root in the file without emdpath is proved (node in file x tree option x mode; node one "
+         "beyond the file x tree option). Not proved, modelled branch for branch and compared only: emdpath combined with a root "
+         "already in the file other than the rooted-list-item leaf, a foreign Root's children. "
          "compatKids is the explicit 'common name space' domain: no runtime child named like an object of the body it lands in, "
          "scratch name _tmp_<name> free, old children not named like objects of the replacing body. Bodies opaque.",
     technique="Lean 4 refinement proof to a path-wise union spec (whole-root and targeted appends, zipper lemma) + differential correspondence over (file tree, runtime tree) pairs",
@@ -81,9 +82,10 @@ CLAIMED["C10"] = dict(
          "on a file with >= 2 roots reports exactly the root names; C10_save_list — through save(path, [...]) itself: a list of "
          "Roots, unrooted nodes, arrays and dicts saved to a fresh path gives the header plus exactly one top-level tree per root "
          "(root_savedlist of the unrooted items first, then the given Roots whole, in order), each the encoding of its source.",
-    note="List items that are nodes of other trees (written alone under a copy of their root by an append-over under an emdpath) "
-         "are modelled (EmdModel.SaveList) and checked by the correspondence and a direct layout oracle on every generated list, "
-         "not proved. The array_i / dictionary_i naming inside root_savedlist is part of listRoots (model), compared with the code.",
+    note="List items that are nodes of other trees: each step is proved through the public entry point (C10_rooted_item: the node "
+         "alone becomes a new last child of the root group of that name; mdBody_self: the copy's metadata are unchanged by the "
+         "merge), their fold over a whole list is modelled (EmdModel.SaveList) and checked by the correspondence and a direct "
+         "layout oracle on every generated list. The array_i / dictionary_i naming inside root_savedlist is part of listRoots (model), compared with the code.",
     technique="Lean 4 frame/invariant proofs over the save dispatch + differential correspondence on interleaved list saves and appends",
     design="7 C10")
 CLAIMED["C11"] = dict(
@@ -237,13 +239,15 @@ CLAIMED["C06"] = dict(
          "and nesting: C06_absent — a name no searched module binds is NOT found, the lookup fails instead of substituting another "
          "class; C06_builtin — built-ins are found unless re-bound; C06_unhooked / C06_sub_unhooked / C06_too_deep — modules that do "
          "not opt in, un-hooked sub-modules and sub-modules at the depth limit are not searched (5 deep in, 6 deep out); "
-         "C06_found_last / C06_exposed — an exposed class is found under its name (the last binding wins: why names must be "
-         "distinct); C06_custom_not_child / C06_custom_is_body — custom_* groups are never tree children.",
-    note="PARTIAL: 'found at any nesting depth <= 5 through hooked sub-modules' is proved for the top level of a hooked module "
-         "(C06_exposed) and decided on concrete chains of depth 5 / 6 (examples); for arbitrary placements it is compared by the "
-         "correspondence on synthetic modules (types.ModuleType in sys.modules, subclasses created with type(), hooks True / absent "
-         "/ False / 1, nesting 0-7) incl. a real save / read of instances, Custom attribute nodes, and the class removed before "
-         "reading. Python's import machinery and classes exposed under an alias are not modelled.",
+         "C06_found_last / C06_exposed / C06_found_nested — an exposed class is found under its name at every placement the rule "
+         "reaches (the last binding wins: why names must be distinct); C06_custom_not_child / C06_custom_is_body — custom_* groups are never tree children.",
+    note="C06_found_nested covers EVERY placement: the walk is exactly the sequence of its bindings (walkMembers_eq / classDict_eq), "
+         "so with distinct class names every class the documented rule reaches (C06_reaches_class / C06_reaches_submodule: top "
+         "level of a module with _emd_hook is True, hooked sub-modules within the depth limit) is what the lookup returns; five "
+         "deep in, six deep out. Also compared by the correspondence on synthetic modules (types.ModuleType in sys.modules, "
+         "subclasses created with type(), hooks True / absent / False / 1, nesting 0-7, the SAME module object under two parents) "
+         "incl. a real save / read of instances, Custom attribute nodes (also underscore-named), and the class removed before "
+         "reading. Python's import machinery itself is not modelled.",
     technique="Lean 4 proofs over a registry model + regenerated constants + differential correspondence with synthetic modules and real round-trips",
     design="7 C06")
 
@@ -272,7 +276,7 @@ CLAIMED["C18"] = dict(
     design="7 C18")
 
 CLAIMED["C15"] = dict(
-    text="The claim 'for ANY input' is false of the code that exists, so the theorem is stated as ..._partial on explicit domains and "
+    text="C15_array_reads_back — whatever the Array constructor accepts is read back as it was (C02_roundtrip on the constructor's range). The claim 'for ANY input' is false of the code that exists, so the theorem is stated as ..._partial on explicit domains and "
          "every exclusion is exhibited by a counterexample decided in the model AND replayed on the implementation each run. "
          "Kernel-checked: C15_rejects_unsupported / _in_dict / _in_sequence / _odd_lists — values of kinds the writer does not know "
          "(numpy bools, bytes, sets and other objects, what h5py refuses, lists of lists / tuples / dicts, ragged sequences) are "
